@@ -147,6 +147,6 @@ def e_si(c):
 
 
 PARTS = [
-    Part("adc", e_adc, s_adc(), quick=500, thorough=3000, shards=8, quick_shards=2, rule="non-trivial: >=1 sample outside the estimated full-scale range"),
-    Part("shortest_int", e_si, s_si(), quick=3000, thorough=20000, shards=8, rule="non-trivial: >=2 tied minima at non-adjacent positions"),
+    Part("adc", e_adc, s_adc(), quick=500, thorough=15000, shards=8, quick_shards=2, rule="non-trivial: >=1 sample outside the estimated full-scale range"),
+    Part("shortest_int", e_si, s_si(), quick=3000, thorough=100000, shards=8, rule="non-trivial: >=2 tied minima at non-adjacent positions"),
 ]
